@@ -120,6 +120,20 @@ def case_history(R, D, sub):
             ref = np.stack([mass[r] * np.einsum("uu->", E_forms([(A, a), (A, a)], mu_[r], S_[r])) for r in range(R)])
             if m.regs.get(r_) is not None:
                 fail_if(fails, PROPERTY, f"integrate:quad_inner:{when}", "integral != mass x exact Gaussian moment of the CURRENT measure", np.asarray(m.regs[r_]), ref, params=params)
+        # a product measure (Sherman-Morrison cache) whose mass was asked for through the light route BEFORE its first
+        # polynomial integral, and another one that was normalised before its first integral
+        for pre in ("log_integral_light", "normalize"):
+            base = mk_measure(m, rng, R, D); g = mk_factor(m, rng, "onerank", 1, D)
+            m.query("integral", base.reg)
+            pr = m.hadamard(base.reg, g.reg, True)
+            Lp = base.Lambda + g.Lambda; nup = base.nu + g.nu; lbp = base.ln_beta + g.ln_beta
+            Sp = np.linalg.inv(Lp); mup = np.einsum("rij,rj->ri", Sp, nup)
+            lmp = np.array([log_gauss_integral(Lp[r], nup[r], lbp[r]) for r in range(R)])
+            m.query(pre, pr)
+            check(pr, np.ones(R) if pre == "normalize" else np.exp(lmp), mup, Sp, f"product-after-{pre}")
+            d_ = m.query("get_density", pr)
+            if m.regs.get(d_) is None:
+                fails.append(failure(PROPERTY, f"get_density:product-after-{pre}", f"raised: {m.impl[-1][1:]}", params=params))
         check(u.reg, np.exp(lm), mu, S, "fresh")
         m.query("normalize", u.reg)                      # in place: same Gaussian, mass one
         check(u.reg, np.ones(R), mu, S, "after-normalize")
